@@ -107,57 +107,57 @@ Definition c_manifest : mbi_class :=
 
 Definition bytes_of (r : res (list N)) : list N := match r with Ok b => b | Err _ => [] end.
 
-(* F1: an image WITH a relocation table (1 entry) is exported and then rejected by the parser *)
+(* ---- the repaired findings F1..F5, F7 as positive computed instances on classes of the database ---- *)
+(* F1 (repaired): an image WITH a relocation table parses back, table and application included *)
 Definition x_reloc : mbi := set_table (x0 64) (Some [{| e_img := [1; 2; 3; 4]%N; e_dst := 536870912; e_flags := 1 |}]).
 Definition im_reloc : list N := bytes_of (export_mbi (k0 0) c_crc_ram x_reloc).
-Lemma refute_reloc_table :
-  in_db c_crc_ram = true /\ validate c_crc_ram x_reloc = Ok tt /\
-  export_mbi (k0 0) c_crc_ram x_reloc = Ok im_reloc /\ parse_mbi (k0 0) c_crc_ram 1140 0 None im_reloc = Err E_REJECT.
+Lemma fixed_reloc_table :
+  in_db c_crc_ram = true /\ export_mbi (k0 0) c_crc_ram x_reloc = Ok im_reloc /\
+  parse_mbi (k0 0) c_crc_ram 1140 0 None im_reloc = Ok (parsed c_crc_ram x_reloc None).
 Proof. repeat split; vm_compute; reflexivity. Qed.
 
-(* F2: a payload without table whose tail looks like a table header: the parsed application is cut (80 -> 64 bytes here) *)
+(* F2 (repaired): a payload without table whose tail looks like a table header comes back whole *)
 Definition x_tail : mbi :=
   set_app (x0 80) (firstn 64 (bytes_seq 80) ++ [76; 66; 84; 76; 0; 0; 0; 0; 0; 0; 0; 0; 64; 0; 0; 0]%N).
 Definition im_tail : list N := bytes_of (export_mbi (k0 0) c_crc_ram x_tail).
-Lemma refute_reloc_like_tail :
-  validate c_crc_ram x_tail = Ok tt /\ m_table x_tail = None /\ export_mbi (k0 0) c_crc_ram x_tail = Ok im_tail /\
-  res_map (fun y => (length (m_app y), m_table y)) (parse_mbi (k0 0) c_crc_ram 1140 0 None im_tail) = Ok (64%nat, Some []) /\
-  length (m_app x_tail) = 80%nat.
+Lemma fixed_reloc_like_tail :
+  export_mbi (k0 0) c_crc_ram x_tail = Ok im_tail /\
+  parse_mbi (k0 0) c_crc_ram 1140 0 None im_tail = Ok (parsed c_crc_ram x_tail None).
 Proof. repeat split; vm_compute; reflexivity. Qed.
 
-(* F3: HMAC class, application of 56 bytes: the HMAC lands inside the certificate block and the parser rejects the image *)
+(* F3 (repaired): HMAC class, application of 56 bytes: the builder refuses *)
 Definition x_hmac (n : nat) : mbi := set_cert (set_hmac (x0 n) (Some (zeros 32))) (Some cert1).
-Definition im_hmac : list N := bytes_of (export_mbi (k0 256) c_signed_ram (x_hmac 56)).
-Lemma refute_hmac_short_app :
+Lemma fixed_hmac_short_app :
   in_db c_signed_ram = true /\ validate c_signed_ram (x_hmac 56) = Ok tt /\
-  export_mbi (k0 256) c_signed_ram (x_hmac 56) = Ok im_hmac /\
-  parse_mbi (k0 256) c_signed_ram 1140 256 (Some (zeros 32)) im_hmac = Err E_REJECT.
+  export_mbi (k0 256) c_signed_ram (x_hmac 56) = Err E_REJECT.
 Proof. repeat split; vm_compute; reflexivity. Qed.
 
-(* F4: encrypted class, application of exactly 64 bytes: HMAC inserted twice, emitted length <> IVT word 0x20 *)
+(* F4 (repaired): encrypted class, application of exactly 64 bytes: emitted length = IVT word 0x20, and it parses back *)
 Definition x_enc : mbi := set_iv (x_hmac 64) (zeros 16).
 Definition im_enc : list N := bytes_of (export_mbi (k0 256) c_encrypted x_enc).
-Lemma refute_double_hmac :
-  in_db c_encrypted = true /\ validate c_encrypted x_enc = Ok tt /\
-  export_mbi (k0 256) c_encrypted x_enc = Ok im_enc /\ zlen im_enc = rd32 OFF_LEN im_enc + 32.
+Lemma fixed_double_hmac :
+  in_db c_encrypted = true /\ export_mbi (k0 256) c_encrypted x_enc = Ok im_enc /\ zlen im_enc = rd32 OFF_LEN im_enc /\
+  parse_mbi (k0 256) c_encrypted 1140 256 (Some (zeros 32)) im_enc = Ok (parsed c_encrypted x_enc (Some (zeros 32))).
 Proof. repeat split; vm_compute; reflexivity. Qed.
 
-(* F5: manifest class, default TrustZone: parses back as DISABLED, and the parsed object fails its own validation *)
+(* F5 (repaired): manifest class, default TrustZone parses back as default TrustZone *)
 Definition x_manifest : mbi := set_cert (set_tz (x0 64) TzEnabled) (Some cert21).
 Definition im_manifest : list N := bytes_of (export_mbi (k0 64) c_manifest x_manifest).
-Lemma refute_manifest_default_tz :
-  in_db c_manifest = true /\ validate c_manifest x_manifest = Ok tt /\
-  export_mbi (k0 64) c_manifest x_manifest = Ok im_manifest /\ m_tz x_manifest = TzEnabled /\
-  res_map (fun y => (tz_tag (m_tz y), validate c_manifest y)) (parse_mbi (k0 64) c_manifest 1100 64 None im_manifest)
-  = Ok (G_TZ_DISABLED, Err E_REJECT).
+Lemma fixed_manifest_default_tz :
+  in_db c_manifest = true /\ export_mbi (k0 64) c_manifest x_manifest = Ok im_manifest /\
+  parse_mbi (k0 64) c_manifest 1100 64 None im_manifest = Ok (parsed c_manifest x_manifest None).
 Proof. repeat split; vm_compute; reflexivity. Qed.
 
-(* F7: certificate block v1 + custom TrustZone: the parser stops with a non-SPSDK exception (AssertionError) *)
-Definition x_v1_tz : mbi := set_cert (set_tz (x0 64) (TzCustom (zeros 464))) (Some cert1).
+(* F7 (repaired): certificate block v1 + custom TrustZone parses back (plain and behind HMAC + key store) *)
+Definition x_v1_tz : mbi := set_cert (set_tz (x0 64) (TzCustom (bytes_seq 464))) (Some cert1).
 Definition im_v1_tz : list N := bytes_of (export_mbi (k0 256) c_signed_xip x_v1_tz).
-Lemma refute_certv1_custom_tz :
-  in_db c_signed_xip = true /\ validate c_signed_xip x_v1_tz = Ok tt /\
-  export_mbi (k0 256) c_signed_xip x_v1_tz = Ok im_v1_tz /\ parse_mbi (k0 256) c_signed_xip 464 256 None im_v1_tz = Err E_CRASH.
+Definition x_ram_tz : mbi := set_ks (set_tz (x_hmac 64) (TzCustom (bytes_seq 1140))) (Some (zeros 1424)).
+Definition im_ram_tz : list N := bytes_of (export_mbi (k0 256) c_signed_ram x_ram_tz).
+Lemma fixed_certv1_custom_tz :
+  in_db c_signed_xip = true /\ export_mbi (k0 256) c_signed_xip x_v1_tz = Ok im_v1_tz /\
+  parse_mbi (k0 256) c_signed_xip 464 256 None im_v1_tz = Ok (parsed c_signed_xip (set_load x_v1_tz 0) None) /\
+  export_mbi (k0 256) c_signed_ram x_ram_tz = Ok im_ram_tz /\
+  parse_mbi (k0 256) c_signed_ram 1140 256 (Some (zeros 32)) im_ram_tz = Ok (parsed c_signed_ram x_ram_tz (Some (zeros 32))).
 Proof. repeat split; vm_compute; reflexivity. Qed.
 
 (* F8: some offer is parsed with a class that has no load address although the exporting class has one *)
@@ -178,21 +178,19 @@ Proof.
   intros s Hs. pose proof (proj1 (forallb_forall _ all_selections) class_selection_all s Hs) as H.
   destruct s as [[c c']|]; [|discriminate]. exists c, c'. split; [reflexivity|]. now apply orb_true_iff.
 Qed.
-Lemma roundtrip_refuted_all :
-  (in_db c_crc_ram = true /\ validate c_crc_ram x_reloc = Ok tt /\
-   export_mbi (k0 0) c_crc_ram x_reloc = Ok im_reloc /\ parse_mbi (k0 0) c_crc_ram 1140 0 None im_reloc = Err E_REJECT) /\
-  (validate c_crc_ram x_tail = Ok tt /\ m_table x_tail = None /\ export_mbi (k0 0) c_crc_ram x_tail = Ok im_tail /\
-   res_map (fun y => (length (m_app y), m_table y)) (parse_mbi (k0 0) c_crc_ram 1140 0 None im_tail) = Ok (64%nat, Some []) /\
-   length (m_app x_tail) = 80%nat) /\
+Lemma repaired_findings_hold :
+  (in_db c_crc_ram = true /\ export_mbi (k0 0) c_crc_ram x_reloc = Ok im_reloc /\
+   parse_mbi (k0 0) c_crc_ram 1140 0 None im_reloc = Ok (parsed c_crc_ram x_reloc None)) /\
+  (export_mbi (k0 0) c_crc_ram x_tail = Ok im_tail /\
+   parse_mbi (k0 0) c_crc_ram 1140 0 None im_tail = Ok (parsed c_crc_ram x_tail None)) /\
   (in_db c_signed_ram = true /\ validate c_signed_ram (x_hmac 56) = Ok tt /\
-   export_mbi (k0 256) c_signed_ram (x_hmac 56) = Ok im_hmac /\
-   parse_mbi (k0 256) c_signed_ram 1140 256 (Some (zeros 32)) im_hmac = Err E_REJECT) /\
-  (in_db c_encrypted = true /\ validate c_encrypted x_enc = Ok tt /\
-   export_mbi (k0 256) c_encrypted x_enc = Ok im_enc /\ zlen im_enc = rd32 OFF_LEN im_enc + 32) /\
-  (in_db c_manifest = true /\ validate c_manifest x_manifest = Ok tt /\
-   export_mbi (k0 64) c_manifest x_manifest = Ok im_manifest /\ m_tz x_manifest = TzEnabled /\
-   res_map (fun y => (tz_tag (m_tz y), validate c_manifest y)) (parse_mbi (k0 64) c_manifest 1100 64 None im_manifest)
-   = Ok (G_TZ_DISABLED, Err E_REJECT)) /\
-  (in_db c_signed_xip = true /\ validate c_signed_xip x_v1_tz = Ok tt /\
-   export_mbi (k0 256) c_signed_xip x_v1_tz = Ok im_v1_tz /\ parse_mbi (k0 256) c_signed_xip 464 256 None im_v1_tz = Err E_CRASH).
-Proof. exact (conj refute_reloc_table (conj refute_reloc_like_tail (conj refute_hmac_short_app (conj refute_double_hmac (conj refute_manifest_default_tz refute_certv1_custom_tz))))). Qed.
+   export_mbi (k0 256) c_signed_ram (x_hmac 56) = Err E_REJECT) /\
+  (in_db c_encrypted = true /\ export_mbi (k0 256) c_encrypted x_enc = Ok im_enc /\ zlen im_enc = rd32 OFF_LEN im_enc /\
+   parse_mbi (k0 256) c_encrypted 1140 256 (Some (zeros 32)) im_enc = Ok (parsed c_encrypted x_enc (Some (zeros 32)))) /\
+  (in_db c_manifest = true /\ export_mbi (k0 64) c_manifest x_manifest = Ok im_manifest /\
+   parse_mbi (k0 64) c_manifest 1100 64 None im_manifest = Ok (parsed c_manifest x_manifest None)) /\
+  (in_db c_signed_xip = true /\ export_mbi (k0 256) c_signed_xip x_v1_tz = Ok im_v1_tz /\
+   parse_mbi (k0 256) c_signed_xip 464 256 None im_v1_tz = Ok (parsed c_signed_xip (set_load x_v1_tz 0) None) /\
+   export_mbi (k0 256) c_signed_ram x_ram_tz = Ok im_ram_tz /\
+   parse_mbi (k0 256) c_signed_ram 1140 256 (Some (zeros 32)) im_ram_tz = Ok (parsed c_signed_ram x_ram_tz (Some (zeros 32)))).
+Proof. exact (conj fixed_reloc_table (conj fixed_reloc_like_tail (conj fixed_hmac_short_app (conj fixed_double_hmac (conj fixed_manifest_default_tz fixed_certv1_custom_tz))))). Qed.
